@@ -4,14 +4,15 @@ package main
 
 import (
 	"bufio"
-	"math/big"
 	"encoding/json"
 	"flag"
 	"fmt"
 	"hash/fnv"
+	"math/big"
 	"math/rand"
 	"os"
 	"sort"
+	"strconv"
 	"strings"
 	"time"
 
@@ -367,7 +368,13 @@ func main() {
 	seed := flag.Int64("seed", 1, "PRNG seed")
 	ops := flag.String("ops", "", "comma separated operation filter (kernel mode); prefix* allowed")
 	statsFile := flag.String("stats", "", "write run statistics (JSON) here")
+	hintArg := flag.String("hints", "", "comma separated integer literals to steer the generators at (hunt mode)")
 	flag.Parse()
+	for _, h := range strings.Split(*hintArg, ",") {
+		if v, err := strconv.ParseUint(strings.TrimSpace(h), 10, 64); err == nil {
+			hints = append(hints, v)
+		}
+	}
 	out = bufio.NewWriterSize(os.Stdout, 1<<20)
 	defer out.Flush()
 	g := &G{r: rand.New(rand.NewSource(*seed))}
